@@ -184,12 +184,12 @@ def discharge(ctx, chk, g, with_main=False):
     # parse_inst subtractions
     f = ctx.rspirv.fn(PAR, "parse_inst", "Parser")
     subs = sites(f["body"], lambda n: n[0] == "binary" and n[1] == "-")
-    ok = len(subs) == 3
+    ok = 1 <= len(subs) <= 3
     for n, conds in subs:
         t_ = show(n)
         c = " && ".join(conds)
         if t_.startswith("(self.decoder.offset() - "):
-            ok = ok and "let Ok(" in c and "self.decoder.word()" in c
+            ok = ok and ("let Ok(" in c or "matches Ok(" in c) and "self.decoder.word()" in c
         elif re.match(r"^\(\w+ - 1\)$", t_):
             v = t_[1:].split(" ")[0]
             ok = ok and ("!((%s == 0))" % v) in c
@@ -237,16 +237,18 @@ def discharge(ctx, chk, g, with_main=False):
     chk.check(R3, callers == {"parse_operands", "parse_spec_constant_op"}, "parse_operand-callers", "parse_operand is called from %s" % sorted(callers),
               raw.where("parse_operand", "Parser"))
 
-    # ExtInstSetTracker::track
-    f = ctx.rspirv.fn("rspirv::binary::tracker", "track", "ExtInstSetTracker")
-    ss = sites(f["body"], lambda n: (n[0] == "index") or (n[0] == "mcall" and n[2] == "unwrap"))
-    ok = len(ss) == 3
-    for n, conds in ss:
-        c = " ".join(conds)
-        ok = ok and "inst.operands.is_empty()" in c and "inst.result_id.is_none()" in c and c.startswith("!(")
-        if n[0] == "index":
-            ok = ok and int_of(n[2]) == 0
-    chk.check(R3, ok, "extinst_track", "sites: %s" % [(show(n)[:40], c) for n, c in ss], raw.where("track", "ExtInstSetTracker"))
+    # ExtInstSetTracker::track: no abstract case panics (operands empty / result id absent / wrong operand kind)
+    from . import extx
+    badc = []
+    for name, opcode, rid, ops, want in extx.track_cases():
+        try:
+            res = extx.track_eval(ctx, opcode, rid, ops)
+            if res[0] == "panic":
+                badc.append((name, res[1]))
+        except Anchor as ex:
+            badc.append((name, "not analysable: %s" % ex))
+            break
+    chk.check(R3, not badc, "extinst_track", "ExtInstSetTracker::track can panic: %s" % badc[:2], raw.where("track", "ExtInstSetTracker"))
 
     # disas_ext_inst
     f = ctx.rspirv.fn("rspirv::binary::disassemble", "disas_ext_inst")
@@ -275,6 +277,28 @@ def discharge(ctx, chk, g, with_main=False):
     sl = sites(f["body"], lambda n: n[0] == "index")
     ok = len(sl) == 1 and any("matches Operand::Dim(" in c or "matches Self::Dim(" in c for c in sl[0][1]) and show(sl[0][0][2]) == "3.."
     chk.check(R3, ok, "dim_slice_site", "string slicing sites in Display for Operand: %s" % [(show(n)[:60], c) for n, c in sl], raw.where("fmt", "Operand"))
+
+    # CONST discharges: every shift amount / divisor in the audited functions is a literal (or the constant 4) within range
+    const_fns = [("rspirv::binary::decoder", "bit64", "Decoder", None), ("rspirv::binary::decoder", "string", "Decoder", None),
+                 (PAR, "split_into_word_count_and_opcode", "Parser", None), ("rspirv::dr::constructs", "generator", "ModuleHeader", False),
+                 ("rspirv::binary::assemble", "assemble_into", "Instruction", "Assemble"), ("rspirv::binary::assemble", "assemble_into", "Operand", "Assemble")]
+    for mod, name, ty, tr in const_fns:
+        f = ctx.rspirv.fn(mod, name, ty, tr)
+        bad = []
+        for n in walk(f["body"]):
+            if n[0] == "binary" and n[1] in ("<<", ">>"):
+                v = int_of(n[3])
+                if v is None or not (0 <= v < 32):
+                    bad.append(show(n))
+            if n[0] == "binary" and n[1] in ("/", "%"):
+                v = int_of(n[3])
+                if v is None and path_of(n[3]) == "WORD_NUM_BYTES":
+                    v = consts.get("WORD_NUM_BYTES")
+                if not v:
+                    bad.append(show(n))
+        # `v >> 32` on a u64 is in range: accept 32 when the operand is a 64-bit value (bit64 / LiteralBit64 arm)
+        bad = [b for b in bad if not (b.endswith(">> 32)") or b.endswith("<< 32)")) or name not in ("bit64", "assemble_into")]
+        chk.check(R3, not bad, "const-shifts-and-divisors:%s::%s" % (ty, name), "non-constant or out-of-range shift/divisor: %s" % bad, raw.where(name, ty))
 
     # termination
     RP = chk.rule("R-PROGRESS", "every arm of parse_operand and every parameter list performs at least one decoder read (so the variadic "
